@@ -131,7 +131,8 @@ def run_shard(shard, tier, seed):
                         if len(lst) > 1 and not bool(out[1][1 - idx]):
                             probs.append(("neighbour-failed", f"the small request in the same call failed: {out[1][1 - idx].error!r:.80}"))
                     devs = "frag-choice" if ctx.deviations else "default"
-                    rep.case((cfg, tg.name, "read", path, tuple(ctx.choices)), outcome="ok" if not probs else probs[0][0])
+                    nfr = sum(1 for x in ctl.svc_log if x[0] == "readfrag")
+                    rep.case((cfg, tg.name, "read", path, tuple(ctx.choices)), outcome=(f"ok:read/{path}/{min(nfr, 5)}-fragments") if not probs else probs[0][0])
                     for clause, detail in probs[:3]:
                         rep.violation(f"read/{path}/{win}/{clause}/{devs}", f"{cfg} read {lst!r} ({total} data bytes, connection {S}): {detail} (choices {ctx.choices!r})",
                                       {"shard": list(shard), "tag": tg.name, "op": "read", "path": path, "choices": list(ctx.choices)})
@@ -167,7 +168,8 @@ def run_shard(shard, tier, seed):
                     if len(reqs) > 1 and not bool(out[1][1 - idx]):
                         probs.append(("neighbour-failed", f"the small request in the same call failed: {out[1][1 - idx].error!r:.80}"))
                 proj.restore(pre)
-                rep.case((cfg, tg.name, "write", path), outcome="ok" if not probs else probs[0][0])
+                nfw = sum(1 for x in ctl.svc_log if x[0] == "writefrag")
+                rep.case((cfg, tg.name, "write", path), outcome=(f"ok:write/{path}/{min(nfw, 5)}-fragments") if not probs else probs[0][0])
                 for clause, detail in probs[:3]:
                     rep.violation(f"write/{path}/{win}/{clause}", f"{cfg} write {[x for x, _ in reqs]!r} ({total} data bytes, connection {S}): {detail}",
                                   {"shard": list(shard), "tag": tg.name, "op": "write", "path": path, "choices": []})
